@@ -6,10 +6,11 @@ import Driver.MirpCmd
 import Driver.FormCmd
 import Driver.ExportCmd
 import Driver.CacheCmd
+import Driver.FlagsCmd
 /-! `vrpdriver`: reads request lines from stdin, writes one reply line each -/
 open Vrp Vrp.Proto Vrp.Drv
 
-def allCmds : List (String × P String) := toolCmds ++ graphCmds ++ samplerCmds ++ mirpCmds ++ formCmds ++ exportCmds ++ cacheCmds
+def allCmds : List (String × P String) := toolCmds ++ graphCmds ++ samplerCmds ++ mirpCmds ++ formCmds ++ exportCmds ++ cacheCmds ++ flagsCmds
 
 def handle (line : String) : String :=
   let toks := (line.splitOn " ").filter (· ≠ "")
